@@ -90,3 +90,72 @@ Proof.
 Qed.
 Theorem sort_sorted : forall l, tame_list l -> sorted (sort_stable l).
 Proof. intros l T. unfold sort_stable. apply fold_sorted; auto. constructor. Qed.
+
+(* max / min: members of their input that bound all others (on tame inputs); sorting a sorted array changes nothing *)
+Definition step_max (acc y:value) : value := match Lang.vcmp acc y with Gt => acc | _ => y end.
+Definition step_min (acc y:value) : value := match Lang.vcmp acc y with Gt => y | _ => acc end.
+Lemma vle_refl_tame a : tame3 a a a -> vle a a.
+Proof. intros T. destruct (vle_total a a); auto. Qed.
+Lemma fold_max_spec : forall t x, tame_list (x :: t) ->
+  In (fold_left step_max t x) (x :: t) /\ (forall z, In z (x :: t) -> vle z (fold_left step_max t x)).
+Proof.
+  induction t as [|y t IH]; intros x T; cbn [fold_left].
+  - split. left; auto. intros z [<-|[]]. apply vle_refl_tame. apply T; left; auto.
+  - assert (T' : tame_list (step_max x y :: t)).
+    { intros a b c Ha Hb Hc. apply T; cbn [In] in *; unfold step_max in *; destruct (Lang.vcmp x y); intuition. }
+    destruct (IH (step_max x y) T') as [M B]. split.
+    + destruct M as [M|M]; [|right; right; exact M]. rewrite <- M. unfold step_max. destruct (Lang.vcmp x y); cbn; auto.
+    + intros z Hz. assert (Hs : vle x (step_max x y) /\ vle y (step_max x y)).
+      { unfold step_max. pose proof (vcmp_antisym x y) as A. unfold vle. destruct (Lang.vcmp x y) eqn:C; split;
+          first [ discriminate | rewrite C; discriminate | rewrite A; cbn; discriminate | apply (vle_refl_tame y); apply T; cbn; auto | apply (vle_refl_tame x); apply T; cbn; auto ]. }
+      destruct Hs as [Hx Hy]. assert (Bs : vle (step_max x y) (fold_left step_max t (step_max x y))) by (apply B; left; auto).
+      assert (In1 : In (step_max x y) (x :: y :: t)) by (unfold step_max; destruct (Lang.vcmp x y); cbn; auto).
+      assert (In2 : In (fold_left step_max t (step_max x y)) (x :: y :: t)).
+      { destruct M as [M|M]. rewrite <- M. exact In1. right; right; exact M. }
+      destruct Hz as [<-|[<-|Hz]].
+      * apply (vle_trans x (step_max x y) _); auto. apply T; cbn; auto.
+      * apply (vle_trans y (step_max x y) _); auto. apply T; cbn; auto.
+      * apply B. right; exact Hz.
+Qed.
+Theorem vmax_spec : forall l m, tame_list l -> vmax l = Some m -> In m l /\ forall z, In z l -> vle z m.
+Proof. intros [|x t] m T H; [discriminate|]. cbn [vmax] in H. injection H as <-. exact (fold_max_spec t x T). Qed.
+Lemma fold_min_spec : forall t x, tame_list (x :: t) ->
+  In (fold_left step_min t x) (x :: t) /\ (forall z, In z (x :: t) -> vle (fold_left step_min t x) z).
+Proof.
+  induction t as [|y t IH]; intros x T; cbn [fold_left].
+  - split. left; auto. intros z [<-|[]]. apply vle_refl_tame. apply T; left; auto.
+  - assert (T' : tame_list (step_min x y :: t)).
+    { intros a b c Ha Hb Hc. apply T; cbn [In] in *; unfold step_min in *; destruct (Lang.vcmp x y); intuition. }
+    destruct (IH (step_min x y) T') as [M B]. split.
+    + destruct M as [M|M]; [|right; right; exact M]. rewrite <- M. unfold step_min. destruct (Lang.vcmp x y); cbn; auto.
+    + intros z Hz. assert (Hs : vle (step_min x y) x /\ vle (step_min x y) y).
+      { unfold step_min. pose proof (vcmp_antisym x y) as A. unfold vle. destruct (Lang.vcmp x y) eqn:C; split;
+          first [ discriminate | rewrite C; discriminate | rewrite A; cbn; discriminate | apply (vle_refl_tame y); apply T; cbn; auto | apply (vle_refl_tame x); apply T; cbn; auto ]. }
+      destruct Hs as [Hx Hy]. assert (Bs : vle (fold_left step_min t (step_min x y)) (step_min x y)) by (apply B; left; auto).
+      assert (In1 : In (step_min x y) (x :: y :: t)) by (unfold step_min; destruct (Lang.vcmp x y); cbn; auto).
+      assert (In2 : In (fold_left step_min t (step_min x y)) (x :: y :: t)).
+      { destruct M as [M|M]. rewrite <- M. exact In1. right; right; exact M. }
+      destruct Hz as [<-|[<-|Hz]].
+      * apply (vle_trans _ (step_min x y) x); auto. apply T; cbn; auto.
+      * apply (vle_trans _ (step_min x y) y); auto. apply T; cbn; auto.
+      * apply B. right; exact Hz.
+Qed.
+Theorem vmin_spec : forall l m, tame_list l -> vmin l = Some m -> In m l /\ forall z, In z l -> vle m z.
+Proof. intros [|x t] m T H; [discriminate|]. cbn [vmin] in H. injection H as <-. exact (fold_min_spec t x T). Qed.
+Lemma insert_at_end x l : Forall (fun y => Builtins.vle y x = true) l -> insert_sorted x l = l ++ [x].
+Proof. induction 1 as [|y t Hy Ht IH]; cbn [insert_sorted app]; auto. rewrite Hy, IH. reflexivity. Qed.
+Lemma sorted_app_le a x t : sorted (a ++ x :: t) -> Forall (fun y => Builtins.vle y x = true) a.
+Proof.
+  induction a as [|y a IH]; intros S; constructor.
+  - cbn [app] in S. apply StronglySorted_inv in S as [_ F]. rewrite Forall_forall in F. apply F. apply in_or_app. right; left; auto.
+  - apply IH. cbn [app] in S. apply StronglySorted_inv in S as [S _]. exact S.
+Qed.
+Lemma fold_insert_sorted : forall l acc, sorted (acc ++ l) -> fold_left (fun acc x => insert_sorted x acc) l acc = acc ++ l.
+Proof.
+  induction l as [|x t IH]; intros acc S; cbn [fold_left]. rewrite app_nil_r; auto.
+  rewrite (insert_at_end x acc (sorted_app_le acc x t S)). rewrite IH. rewrite <- app_assoc. reflexivity. rewrite <- app_assoc. exact S.
+Qed.
+Theorem sort_of_sorted : forall l, sorted l -> sort_stable l = l.
+Proof. intros l S. unfold sort_stable. rewrite (fold_insert_sorted l [] S). reflexivity. Qed.
+Theorem sort_idempotent : forall l, tame_list l -> sort_stable (sort_stable l) = sort_stable l.
+Proof. intros l T. apply sort_of_sorted. apply sort_sorted. exact T. Qed.
